@@ -24,7 +24,7 @@ ASSUMPTIONS = [
 ]
 MANIFEST = {'text': 'proof (all normal paths) of the structural conditions under which a full channel can only delay: try_send exists only in the helper, the helper re-sends the very value returned by '
                     'Full with a blocking send, every pipeline outflow in the binary is that helper or a blocking send, each stage inspects send results, contains no other blocking call, and is linear in messages.'
-                    ' Added: the lifecycle stage queues a received message without a send attempt only while a lifecycle is unconfirmed (so a vanished consumer is noticed).'}
+                    ' Added: the lifecycle stage queues a received message without a send attempt only while a lifecycle is unconfirmed (so a vanished consumer is noticed). Added: the lifecycle stage hands no message to the outflow while the table has unrefreshed updates, and publishes after every un-buffering before any outflow call (what the next stage reads from the table does not depend on the pacing; same discipline as C06 T1/T2/T4).'}
 
 TRY_SEND = re.compile(r'::try_send$')
 BLOCKING = re.compile(r'^(std::thread::sleep|std::thread::park\w*|std::thread::JoinHandle::<T>::join|std::sync::Condvar::\w+|std::sync::Mutex::<T>::lock|std::sync::Barrier::wait|'
@@ -67,6 +67,19 @@ def run(F, chk):
         else:
             S6.ok(sample={'stage': b.path, 'stores_of_the_received_message': len(st.blocks_with('STORE')), 'all_under': '!buffered_lcs.is_empty()'})
     S6.floor('lifecycle stage functions', len(lcstage.find_stage(F)), 1)
+    # S7: pacing independence of what the next stage computes.  The sort stage reads the lifecycle table (start time of the
+    # message's lifecycle) when a message arrives.  With a message handed over before its lifecycle is refreshed into the table,
+    # whether the reader already sees the entry depends on how fast the consumer is and on the channel capacity: the sorted
+    # sequence differs between bounded and unbounded channels.  Same table discipline as C06 (T1/T2/T4), decided here as well.
+    import c06
+    S7 = chk.rule('S7', 'lifecycle stage: no message is handed to the outflow while the lifecycle table has unrefreshed updates (what the next stage reads from the table does not depend on the pacing)')
+    S8 = chk.rule('S8', 'lifecycle stage: after an un-buffering, update and refresh of the table happen before any outflow call')
+    T3s = RuleResult('T3', 'scratch')
+    T4s = RuleResult('T4', 'scratch')
+    for b in lcstage.find_stage(F):
+        c06.check_table_discipline(F, b, S7, S8, T3s, T4s)
+        for v in T4s.violations:
+            S7.violation(('closure-leaves-dirty',) + tuple(v['key'].split('|')[2:]), v['msg'], where=v.get('where'))
     helpers = find_helper(F)
     S2.floor('blocking-send helper (anchor: fn(T, &SyncSender<T>) -> Result<(), SendError<T>>)', len(helpers), 1)
     helper_paths = set(h.path for h in helpers)
